@@ -691,6 +691,23 @@ def run_count(case, ctx):
                 ctx.label(f"k={len(combo)}_nonempty")
                 ctx.label("several_topologies", len(cnt) >= 2)
         ctx.check(set(got) <= set(exp), "count_keys", f"tree {i}: unexpected keys {set(got) - set(exp)}")
+        # history on ONE Tree object: a later call with smaller sets (and a rejected call in between) must not see
+        # anything of the earlier call
+        smaller = [list(x[1:]) for x in sets]
+        if any(len(a) != len(b_) for a, b_ in zip(sets, smaller)) and any(smaller):
+            ctx.label("second_call_smaller_sets")
+            try:
+                tree.count_topologies([[len(spec["nodes"]) + 5]] + smaller[1:])
+            except (ValueError, tskit.LibraryError, IndexError):
+                pass
+            got2 = normalise_counter(tree.count_topologies(smaller))
+            exp2 = expected_counts(spec, bps[i], smaller)
+            for combo, cnt in exp2.items():
+                act = {}
+                for r, v in got2.get(combo, {}).items():
+                    act[canon_tree(tskit.Tree.unrank(len(combo), r))] = v
+                ctx.check(act == cnt, "count_topologies_second_call",
+                          lambda: f"tree {i} sets {smaller} (after a call with {sets}) combination {combo}: got {act}, brute force {cnt}")
     # the incremental tree-sequence version
     it = ts.count_topologies(sets)
     first_bad = internal_at.index(True) if any(internal_at) else None
